@@ -14,7 +14,7 @@ import numpy as np
 
 from ..tlc import TLCError
 
-INV = ["MechanismEqualsDefinition", "ConstantContributesCoefficient", "CountsSumToShots", "TalliesSumToShots", "MeanFromTallies", "EmitStats"]
+INV = ["MechanismEqualsDefinition", "ConstantContributesCoefficient", "CountsSumToShots", "TalliesSumToShots", "MeanFromTallies", "TallyValueIsMean", "PrecisionBounded", "EmitStats"]
 
 
 def fr(q):
@@ -81,6 +81,30 @@ def check_case(ctx, c):
     tallies = [list(t) for t in c["tallies"]]
     if np.asarray(par.values).tolist() != tallies:
         out.append(("parities", "%s: parity tallies %s, specification %s" % (desc, np.asarray(par.values).tolist(), tallies)))
+    # expectation values recomputed from the tallies (few samples, and the same tallies scaled to many samples), concatenation
+    from orquestra.quantum.measurements import Parities, concatenate_expectation_values, get_expectation_values_from_parities
+
+    for scale, key in ((1, "p1"), (60, "p60")):
+        ev2 = get_expectation_values_from_parities(Parities(np.array(tallies) * scale))
+        wantv = [float(fr(x["v"])) for x in c["fromtally"]]
+        wantp = [float(fr(x[key])) for x in c["fromtally"]]
+        gotp = [float(np.asarray(m_).reshape(-1)[0]) for m_ in ev2.estimator_covariances]
+        if len(ev2.values) != len(wantv) or any(abs(a - b) > tol for a, b in zip(ev2.values, wantv)):
+            out.append(("from-parities:values", "%s: values from tallies x%d %s, specification %s" % (desc, scale, list(ev2.values), wantv)))
+        if len(gotp) != len(wantp) or any(abs(a - b) > 1e-12 for a, b in zip(gotp, wantp)):
+            out.append(("from-parities:precision", "%s: squared precisions from tallies x%d %s, specification %s" % (desc, scale, gotp, wantp)))
+    ev_a = m.get_expectation_values(op)
+    ev_b = get_expectation_values_from_parities(Parities(np.array(tallies)))
+    cat = concatenate_expectation_values([ev_a, ev_b, ev_a])
+    if list(cat.values) != list(ev_a.values) + list(ev_b.values) + list(ev_a.values):
+        out.append(("concatenate:values", "%s: concatenated values %s" % (desc, list(cat.values))))
+    nfr = lambda x: len(x or [])
+    if nfr(cat.correlations) != 2 * nfr(ev_a.correlations) + nfr(ev_b.correlations) or nfr(cat.estimator_covariances) != 2 * nfr(ev_a.estimator_covariances) + nfr(ev_b.estimator_covariances):
+        out.append(("concatenate:frames", "%s: concatenation has %d correlation / %d covariance frames" % (desc, nfr(cat.correlations), nfr(cat.estimator_covariances))))
+    elif cat.estimator_covariances and not (np.array_equal(cat.estimator_covariances[0], ev_a.estimator_covariances[0]) and np.array_equal(cat.estimator_covariances[-1], ev_a.estimator_covariances[-1])):
+        out.append(("concatenate:order", "%s: covariance frames are not concatenated in order" % desc))
+    if len(ev_a.values) != len(c["op"]) or nfr(ev_a.correlations) != 1:
+        out.append(("concatenate:mutated", "%s: concatenation modified its first argument" % desc))
     for i, t in enumerate(c["op"]):
         f = get_expectation_value_from_frequencies(t["sup"], counts)
         if abs(f - (tallies[i][0] - tallies[i][1]) / N) > tol:
